@@ -116,6 +116,8 @@ def forest_names(f: List[Any]) -> Tuple[List[str], List[str], str]:
 def stan_names(s: Any) -> Tuple[List[str], List[str], str]:
     if s[0] == 0:
         return [], [], s[1]
+    if s[0] == 2:
+        return ['#' + str(s[1])], [], ''      # a Comment / CDATA / other non-Tag node
     els, ats, text = [], [], ''
     if s[1]:
         els.append(s[1])
@@ -352,7 +354,7 @@ def markup_doc(fmt: str, pl: Dict[str, Any]) -> str:
     hyperlink, inline code / emphasis, and -- reStructuredText family -- a role with a label, a comment, a substitution
     definition, a footnote and a hyperlink target"""
     if fmt == 'epytext':
-        return ('Use L{%s <func>} and U{%s <http://example.org/x>} or C{%s} and I{%s} here.\n\n'
+        return ('Use L{%s <func>} and U{%s <http://example.org/x>} or L{%s <func>} and C{%s} here.\n\n'
                 'Also L{%s <pkg.C.m>}, B{%s}, U{%s <http://example.org/%s>}.\n'
                 % (pl['lab0'], pl['lab1'], pl['lab2'], pl['lab3'], pl['com'], pl['sub'], pl['foot'], pl['tgt']))
     if fmt == 'plaintext':
@@ -715,16 +717,16 @@ class Check(PropertyCheck):
         """The driver reports the three shortest failing inputs. Of the decorator-argument failures keep the two that show
         the most (an injected script / marker element / hyperlink rather than a mere extra paragraph), so that a whole page
         with the injected element is among the reported ones as well."""
-        depr = [v for v in out if v.kind == 'oracle' and isinstance(v.case, list) and v.case and v.case[0] == 10]
-        if len(depr) <= 2:
-            return out
-
         def rank(v: Violation) -> Any:
             w = v.what
-            sev = 0 if ("'script'" in w or "'zzq'" in w) else 1 if "'a'" in w else 2
+            sev = 0 if ("'script'" in w or "'zzq'" in w or "'img'" in w) else 1 if ("'a'" in w or 'became markup' in w) else 2
             return (sev, len(json.dumps(v.case)))
-        keep = sorted(depr, key=rank)[:2]
-        return [v for v in out if v not in depr or v in keep]
+        for fn in (10, 15):
+            grp = [v for v in out if v.kind == 'oracle' and isinstance(v.case, list) and v.case and v.case[0] == fn]
+            if len(grp) > 1:
+                keep = sorted(grp, key=rank)[:1]
+                out = [v for v in out if v not in grp or v in keep]
+        return out
 
     def viol(self, out: List[Violation], kind: str, what: str, case: Any, expected: Any = None, observed: Any = None) -> None:
         # at most 6 per kind of message and per kind of case, so that one (possibly known) class cannot hide another
@@ -1010,6 +1012,9 @@ class Check(PropertyCheck):
                     p = 'm<b>'
                 if strict:
                     p = 'x' + p    # the name index groups names by first letter: same letter as the harmless module
+            if site == 'lab3':
+                # the inline-literal site: docutils puts a token with a word-wrap point into <span class="pre">: always one such token
+                p = 'x--' + (re.sub(r'\s+', '', p) or 'w')
             elif site == 'depr':
                 p = 'x-x'      # this site is covered by the unit stream (fn 10) and by one dedicated project
             elif site == 'annot_str':
@@ -1022,6 +1027,7 @@ class Check(PropertyCheck):
         pl = {s: BENIGN for s in SITES}
         pl['modname'] = 'x x'
         pl['depr'] = 'x-x'
+        pl['lab3'] = 'x--x'
         pl['extra'] = 'Formula x x here.'
         if not with_depr:
             pl['depr'] = None
@@ -1048,7 +1054,7 @@ class Check(PropertyCheck):
         for fmt in DOCFORMATS:
             pl = self.benign(fmt)
             pl.update(lab0='<img src="x" onerror="zzattr()"/>', lab1='the <b>old</b> one', lab2='<zzq onzz="1"/>',
-                      lab3='<zzq>x</zzq>', com='old --> <script>zzq()</script>', sub='<b>x</b> --> <zzq/>',
+                      lab3='x--<zzq>x</zzq>', com='old --> <script>zzq()</script>', sub='<b>x</b> --> <zzq/>',
                       foot=']]> <zzq onzz="1"/>', tgt='<zzq/>')
             jobs.insert(0, {'kind': 'strict', 'fmt': fmt, 'payloads': pl})
         # classes of docstring MARKUP that reach the page as live script (known findings on the unchanged tree)
@@ -1131,7 +1137,7 @@ class Check(PropertyCheck):
                 if v.kind == 'oracle' and isinstance(c, dict) and c.get('class') == m['class'] and 'payloads' in c:
                     pl = c['payloads']
                     text = pl.get('extra') or ''
-                    others = all(pl[s] == (BENIGN if s not in ('depr',) else 'x-x') for s in SITES)
+                    others = all(pl[s] == {'depr': 'x-x', 'lab3': 'x--x'}.get(s, BENIGN) for s in SITES)
                     if others and m['trigger'] in text:
                         # exactly this class: the same docstring with the trigger defused passes the oracle on the real code
                         key = json.dumps([c['docformat'], text])
@@ -1172,7 +1178,7 @@ class Check(PropertyCheck):
                 elif isinstance(c, dict) and 'payloads' in c:
                     # a whole run: every other site holds the harmless payload
                     pl = c['payloads']
-                    if all(pl[s] == BENIGN for s in SITES if s != 'depr') and pl.get('depr'):
+                    if all(pl[s] == {'lab3': 'x--x'}.get(s, BENIGN) for s in SITES if s != 'depr') and pl.get('depr'):
                         repl = pl['depr']
                 if v.kind != 'oracle' or repl is None or self.is_dotted_identifier(repl):
                     continue
